@@ -237,6 +237,9 @@ def build(tier, seed):
                       clause="K_e symmetric; rigid-body modes in the kernel (exact)", timeout=2400))
         obs.append(Ob(f"C02.K.rank.{et}.elastic", ob_rank, (et, "elastic"), "B", fk, bound=bound,
                       clause="rank of the assembled stiffness == ndof - #rigid modes", timeout=2400))
+    from . import C14
+    obs.append(Ob("C02.cache.transparent", C14.ob_cache_key, (), "B", ("EasyFEA/Utilities/_cache.py::cache_computed_values",),
+                  bound="7 call spellings x all ordered pairs", clause="cached geometric factors (weighted Jacobians, B, N) are those the functions compute for the requested arguments"))
     obs.append(Ob("canary.rank.TRI3.thermal", ob_rank, ("TRI3", "thermal", 0, True), "B", expect=REFUTED, timeout=300))
     functions = {q: extract.get(BP, q).describe() for q in ("GradUGradV", "UV", "LinearizedElasticity")}
     return dict(
